@@ -307,6 +307,75 @@ pub fn frames_agree(v: &Value, got: &Value) -> bool {
     obs_matches(&v["exp"]["final"], &got["final"], v["fin"] == true)
 }
 
+// ---------------------------------------------------------------- C15: string literals and prefixed integers (hook re-exports)
+fn senc(size: u8, flags: u8, input: &[u8]) -> Value {
+    let mut out = Vec::new();
+    match h3::qpack::verif::prefix_string::encode(size, flags, input, &mut out) {
+        Ok(()) => json!({"ok": true, "bytes": jbytes(&out)}),
+        Err(e) => json!({"ok": false, "err": format!("{:?}", e)}),
+    }
+}
+
+fn sdec(size: u8, input: &[u8]) -> Value {
+    let mut buf = &input[..];
+    match h3::qpack::verif::prefix_string::decode(size, &mut buf) {
+        Ok(v) => json!({"ok": true, "bytes": jbytes(&v), "consumed": input.len() - buf.remaining()}),
+        Err(_) => json!({"ok": false}),
+    }
+}
+
+fn idec(size: u8, input: &[u8]) -> Value {
+    let mut buf = &input[..];
+    match h3::qpack::verif::prefix_int::decode(size, &mut buf) {
+        Ok((flags, v)) => json!({"ok": true, "flags": flags, "value": b8(v), "consumed": input.len() - buf.remaining()}),
+        Err(_) => json!({"ok": false}),
+    }
+}
+
+fn ienc(size: u8, flags: u8, v: u64) -> Value {
+    let mut out = Vec::new();
+    h3::qpack::verif::prefix_int::encode(size, flags, v, &mut out);
+    jbytes(&out)
+}
+
+// ---------------------------------------------------------------- C11: stateless QPACK field sections
+fn fields_of(v: &Value) -> Vec<h3::qpack::HeaderField> {
+    v.as_array().map(|a| a.iter().map(|f| h3::qpack::HeaderField::new(bytes_of(&f[0]), bytes_of(&f[1]))).collect()).unwrap_or_default()
+}
+
+fn jfields(f: &[h3::qpack::HeaderField]) -> Value {
+    json!(f.iter().map(|x| json!([jbytes(&x.name[..]), jbytes(&x.value[..])])).collect::<Vec<_>>())
+}
+
+fn qenc(fields: &Value) -> Value {
+    let mut out = bytes::BytesMut::new();
+    match h3::qpack::encode_stateless(&mut out, fields_of(fields)) {
+        Ok(size) => json!({"ok": true, "bytes": jbytes(&out[..]), "size": size}),
+        Err(e) => json!({"ok": false, "err": format!("{:?}", e)}),
+    }
+}
+
+fn qdec(input: &[u8], max: u64) -> Value {
+    let mut buf = bytes::Bytes::copy_from_slice(input);
+    match h3::qpack::decode_stateless(&mut buf, max) {
+        Ok(d) => json!({"ok": true, "fields": jfields(&d.fields), "size": d.mem_size}),
+        Err(h3::qpack::DecoderError::HeaderTooLong(n)) => json!({"ok": false, "too_long": n}),
+        Err(_) => json!({"ok": false}),
+    }
+}
+
+/// verdict-style expectations: {"v":"ok",...} must match; {"v":"reject"} must fail; {"v":"either",...} may fail, else must match
+fn verdict_agree(exp: &Value, got: &Value) -> bool {
+    let ok = got["ok"] == true;
+    let same = || exp.as_object().map(|m| m.iter().all(|(k, v)| k == "v" || &got[k] == v)).unwrap_or(false);
+    match exp["v"].as_str().unwrap_or("") {
+        "reject" => !ok,
+        "ok" => ok && same(),
+        "either" => !ok || same(),
+        _ => false,
+    }
+}
+
 pub fn exec(v: &Value) -> Value {
     let f = v["fn"].as_str().unwrap_or("");
     guarded(|| match f {
@@ -316,6 +385,12 @@ pub fn exec(v: &Value) -> Value {
         "sid" => sid(u64_of(&v["in"])),
         "sidadd" => sidadd(u64_of(&v["in"]), u64_of(&v["n"])),
         "frames" => frames(&bytes_of(&v["wire"]), &v["cuts"].as_array().map(|a| a.iter().map(|x| x.as_u64().unwrap_or(0)).collect::<Vec<_>>()).unwrap_or_default(), v["fin"] == true),
+        "senc" => senc(v["size"].as_u64().unwrap_or(8) as u8, v["flags"].as_u64().unwrap_or(0) as u8, &bytes_of(&v["in"])),
+        "sdec" => sdec(v["size"].as_u64().unwrap_or(8) as u8, &bytes_of(&v["in"])),
+        "idec" => idec(v["size"].as_u64().unwrap_or(8) as u8, &bytes_of(&v["in"])),
+        "ienc" => ienc(v["size"].as_u64().unwrap_or(8) as u8, v["flags"].as_u64().unwrap_or(0) as u8, u64_of(&v["in"])),
+        "qenc" => qenc(&v["in"]),
+        "qdec" => qdec(&bytes_of(&v["in"]), v.get("max").map(u64_of).unwrap_or(u64::MAX >> 2)),
         "dgenc" => dgenc(u64_of(&v["sid"]), &bytes_of(&v["payload"])),
         "dgdec" => dgdec(&bytes_of(&v["in"])),
         "dgcons" => dgcons(u64_of(&v["sid"]), &bytes_of(&v["payload"]), &v["pattern"].as_array().map(|a| a.iter().map(|x| x.as_u64().unwrap_or(0)).collect::<Vec<_>>()).unwrap_or_default()),
@@ -346,7 +421,7 @@ pub fn run_vectors(inp: &str, out: &str) -> Result<(), String> {
             writeln!(w, "{}", json!({"rec": rec})).map_err(|e| e.to_string())?;
             continue;
         }
-        let agree = if v["fn"] == "frames" { frames_agree(&v, &got) } else { got == v["exp"] };
+        let agree = if v["fn"] == "frames" { frames_agree(&v, &got) } else if v["exp"].get("v").is_some() { verdict_agree(&v["exp"], &got) } else { got == v["exp"] };
         if !agree {
             bad += 1;
             writeln!(w, "{}", json!({"i": i + 1, "ok": false, "vec": v, "got": got})).map_err(|e| e.to_string())?;
@@ -431,6 +506,65 @@ pub fn run_random(prop: &str, seed: u64, n: usize, out: &str) -> Result<(), Stri
                 while left > 0 { let c = if rng.random_bool(0.3) { left } else { rng.random_range(1..=left.min(40)) }; cuts.push(c as u64); left -= c; }
                 json!({"fn": "frames", "wire": jbytes(&wire), "cuts": cuts, "fin": rng.random_bool(0.6)})
             }
+            "C11" => {
+                if rng.random_bool(0.5) {
+                    let nf = rng.random_range(0..5usize);
+                    let names: [&[u8]; 8] = [b":method", b":path", b"cookie", b"accept", b"x", b"content-type", b"x-custom-name", b""];
+                    let mut fields = vec![];
+                    for _ in 0..nf {
+                        let name: Vec<u8> = if rng.random_bool(0.7) { names[rng.random_range(0..8usize)].to_vec() } else { (0..rng.random_range(0..20usize)).map(|_| rng.random()).collect() };
+                        let vl = if rng.random_bool(0.1) { rng.random_range(0..300usize) } else { rng.random_range(0..12usize) };
+                        let value: Vec<u8> = match rng.random_range(0..3u32) { 0 => (0..vl).map(|_| rng.random()).collect(), 1 => b"GET".to_vec(), _ => (0..vl).map(|_| rng.random_range(32..127u8)).collect() };
+                        fields.push(json!([jbytes(&name), jbytes(&value)]));
+                    }
+                    json!({"fn": "qenc", "in": fields})
+                } else {
+                    let n = rng.random_range(0..12usize);
+                    let mut b: Vec<u8> = vec![0, 0];
+                    if rng.random_bool(0.1) { b[0] = rng.random(); }
+                    if rng.random_bool(0.1) { b[1] = rng.random(); }
+                    for _ in 0..n { b.push(if rng.random_bool(0.3) { [0x80u8, 0xc0, 0xd1, 0x50, 0x21, 0x29, 0x01, 0x81, 0xff, 0x10][rng.random_range(0..10usize)] } else { rng.random() }); }
+                    json!({"fn": "qdec", "in": jbytes(&b)})
+                }
+            }
+            "C15" => {
+                match rng.random_range(0..4u32) {
+                    0 => {
+                        let n = if rng.random_bool(0.1) { rng.random_range(0..300usize) } else { rng.random_range(0..40usize) };
+                        let s: Vec<u8> = if rng.random_bool(0.5) { (0..n).map(|_| rng.random()).collect() } else { (0..n).map(|_| rng.random_range(32..127u8)).collect() };
+                        json!({"fn": "senc", "size": rng.random_range(2..=8u32), "flags": 0, "in": jbytes(&s)})
+                    }
+                    1 => {
+                        // a valid Huffman literal produced by the reference route (h3 encode), then mutated
+                        let n = rng.random_range(0..24usize);
+                        let s: Vec<u8> = (0..n).map(|_| rng.random()).collect();
+                        let mut out = Vec::new();
+                        let _ = h3::qpack::verif::prefix_string::encode(8, 0, &s, &mut out);
+                        match rng.random_range(0..5u32) {
+                            0 => { if let Some(l) = out.last_mut() { *l ^= 1 << rng.random_range(0..8u32); } }
+                            1 => { out.push(0xff); if !out.is_empty() && (out[0] & 0x7f) < 0x7e { out[0] += 1; } }
+                            2 => { let k = rng.random_range(0..=out.len()); out.truncate(k); }
+                            3 => { if out.len() > 1 { let i = rng.random_range(1..out.len()); out[i] = rng.random(); } }
+                            _ => {}
+                        }
+                        json!({"fn": "sdec", "size": 8, "in": jbytes(&out)})
+                    }
+                    2 => {
+                        let size = rng.random_range(1..=8u32);
+                        let n = rng.random_range(0..12usize);
+                        let mut b: Vec<u8> = vec![rng.random()];
+                        if rng.random_bool(0.7) { b[0] |= (0xffu16 >> (8 - size)) as u8; }
+                        for i in 0..n { let mut x: u8 = rng.random(); if i + 1 < n { x |= 0x80; } else { x &= 0x7f; } b.push(x); }
+                        json!({"fn": "idec", "size": size, "in": jbytes(&b)})
+                    }
+                    _ => {
+                        let bits = rng.random_range(0..=64u32);
+                        let x: u64 = if bits == 0 { 0 } else { rng.random::<u64>() >> (64 - bits) };
+                        let size = rng.random_range(1..=8u32);
+                        json!({"fn": "ienc", "size": size, "flags": if size == 8 { 0 } else { 1 }, "in": b8(x)})
+                    }
+                }
+            }
             "C18" => {
                 let k: u64 = { let bits = rng.random_range(0..=60u32); if bits == 0 { 0 } else { rng.random::<u64>() >> (64 - bits) } };
                 let plen = rng.random_range(0..24usize);
@@ -455,7 +589,10 @@ pub fn run_random(prop: &str, seed: u64, n: usize, out: &str) -> Result<(), Stri
             }
             _ => return Err(format!("no random driver for {prop}")),
         };
-        let got = exec(&v);
+        let mut got = exec(&v);
+        if v["fn"] == "ienc" {
+            got = json!({"ok": !got.is_object(), "bytes": got});
+        }
         let mut rec = v.clone();
         rec["out"] = got;
         writeln!(w, "{}", rec).map_err(|e| e.to_string())?;
